@@ -1,0 +1,650 @@
+//go:build verif
+
+package ggql
+
+//@ -- ================================================================== C03 package-wide panic-freedom sweep
+//@ -- Functions without a functional contract elsewhere: checked for nil dereference, index and slice bounds, failed
+//@ -- type assertions, nil-map stores, division by zero and comparison of uncomparable dynamic values, on all paths.
+
+//@ func (*Base).Core
+//@   props C03
+//@   check panic {C03}
+//@   requires recv != nil
+
+//@ func (*Base).Name
+//@   props C03
+//@   check panic {C03}
+//@   requires recv != nil
+
+//@ func (*Base).Description
+//@   props C03
+//@   check panic {C03}
+//@   requires recv != nil
+
+//@ func (*Base).Directives
+//@   props C03
+//@   check panic {C03}
+//@   requires recv != nil
+
+//@ func (*Base).Line
+//@   props C03
+//@   check panic {C03}
+//@   requires recv != nil
+
+//@ func (*Base).Column
+//@   props C03
+//@   check panic {C03}
+//@   requires recv != nil
+
+//@ func (*Base).Validate
+//@   props C03
+//@   check panic {C03}
+//@   requires recv != nil
+
+//@ func newBooleanScalar
+//@   props C03
+//@   check panic {C03}
+
+//@ func (*Directive).Rank
+//@   props C03
+//@   check panic {C03}
+//@   requires recv != nil
+
+//@ func (*Directive).String
+//@   props C03
+//@   check panic {C03}
+//@   requires recv != nil
+
+//@ func (*Directive).SDL
+//@   props C03
+//@   check panic {C03}
+//@   requires recv != nil
+
+//@ func (*Directive).Extend
+//@   props C03
+//@   check panic {C03}
+//@   requires recv != nil
+
+//@ func (*Directive).findArg
+//@   props C03
+//@   check panic {C03}
+//@   requires recv != nil
+
+//@ func (*Enum).Rank
+//@   props C03
+//@   check panic {C03}
+//@   requires recv != nil
+
+//@ func (*Enum).Values
+//@   props C03
+//@   check panic {C03}
+//@   requires recv != nil
+
+//@ func (*Enum).String
+//@   props C03
+//@   check panic {C03}
+//@   requires recv != nil
+
+//@ func (*Enum).SDL
+//@   props C03
+//@   check panic {C03}
+//@   requires recv != nil
+
+//@ func (Errors).Error
+//@   props C03
+//@   check panic {C03}
+
+//@ func (*Executable).String
+//@   props C03
+//@   check panic {C03}
+//@   requires recv != nil
+
+//@ func (*Field).String
+//@   props C03
+//@   check panic {C03}
+//@   requires recv != nil
+
+//@ func (*Field).key
+//@   props C03
+//@   check panic {C03}
+//@   requires recv != nil
+
+//@ func (*FieldDef).Args
+//@   props C03
+//@   check panic {C03}
+//@   requires recv != nil
+
+//@ func (*FieldDef).getArg
+//@   props C03
+//@   check panic {C03}
+//@   requires recv != nil
+
+//@ func newFloat64Scalar
+//@   props C03
+//@   check panic {C03}
+
+//@ func newFloatScalar
+//@   props C03
+//@   check panic {C03}
+
+//@ func (*Fragment).String
+//@   props C03
+//@   check panic {C03}
+//@   requires recv != nil
+
+//@ func (*Fragment).write
+//@   props C03
+//@   check panic {C03}
+//@   requires recv != nil
+
+//@ func (*FragRef).String
+//@   props C03
+//@   check panic {C03}
+//@   requires recv != nil
+
+//@ func (*FragRef).Directives
+//@   props C03
+//@   check panic {C03}
+//@   requires recv != nil
+
+//@ func (*FragRef).SelectionSet
+//@   props C03
+//@   check panic {C03}
+//@   requires recv != nil
+
+//@ func (*FragRef).Line
+//@   props C03
+//@   check panic {C03}
+//@   requires recv != nil
+
+//@ func (*FragRef).Column
+//@   props C03
+//@   check panic {C03}
+//@   requires recv != nil
+
+//@ func newIDScalar
+//@   props C03
+//@   check panic {C03}
+
+//@ func (*Inline).String
+//@   props C03
+//@   check panic {C03}
+//@   requires recv != nil
+
+//@ func (*Input).Rank
+//@   props C03
+//@   check panic {C03}
+//@   requires recv != nil
+
+//@ func (*Input).String
+//@   props C03
+//@   check panic {C03}
+//@   requires recv != nil
+
+//@ func (*Input).Fields
+//@   props C03
+//@   check panic {C03}
+//@   requires recv != nil
+
+//@ func (*Input).SDL
+//@   props C03
+//@   check panic {C03}
+//@   requires recv != nil
+
+//@ func inErr
+//@   props C03
+//@   check panic {C03}
+
+//@ func (*Input).reflectSetKey
+//@   props C03
+//@   check panic {C03}
+//@   requires recv != nil
+
+//@ func newInt64Scalar
+//@   props C03
+//@   check panic {C03}
+
+//@ func (*Interface).Rank
+//@   props C03
+//@   check panic {C03}
+//@   requires recv != nil
+
+//@ func (*Interface).Fields
+//@   props C03
+//@   check panic {C03}
+//@   requires recv != nil
+
+//@ func (*Interface).String
+//@   props C03
+//@   check panic {C03}
+//@   requires recv != nil
+
+//@ func (*Interface).SDL
+//@   props C03
+//@   check panic {C03}
+//@   requires recv != nil
+
+//@ func (*Interface).GetField
+//@   props C03
+//@   check panic {C03}
+//@   requires recv != nil
+
+//@ func newIntScalar
+//@   props C03
+//@   check panic {C03}
+
+//@ func (*List).Core
+//@   props C03
+//@   check panic {C03}
+//@   requires recv != nil
+
+//@ func (*List).Rank
+//@   props C03
+//@   check panic {C03}
+//@   requires recv != nil
+
+//@ func (*List).Name
+//@   props C03
+//@   check panic {C03}
+//@   requires recv != nil
+
+//@ func (*List).Description
+//@   props C03
+//@   check panic {C03}
+//@   requires recv != nil
+
+//@ func (*List).Directives
+//@   props C03
+//@   check panic {C03}
+//@   requires recv != nil
+
+//@ func (*List).Line
+//@   props C03
+//@   check panic {C03}
+//@   requires recv != nil
+
+//@ func (*List).Column
+//@   props C03
+//@   check panic {C03}
+//@   requires recv != nil
+
+//@ func (*List).String
+//@   props C03
+//@   check panic {C03}
+//@   requires recv != nil
+
+//@ func (*List).SDL
+//@   props C03
+//@   check panic {C03}
+//@   requires recv != nil
+
+//@ func (*List).Write
+//@   props C03
+//@   check panic {C03}
+//@   requires recv != nil
+
+//@ func (*List).Extend
+//@   props C03
+//@   check panic {C03}
+//@   requires recv != nil
+
+//@ func (*List).Validate
+//@   props C03
+//@   check panic {C03}
+//@   requires recv != nil
+
+//@ func (*NonNull).Rank
+//@   props C03
+//@   check panic {C03}
+//@   requires recv != nil
+
+//@ func (*NonNull).Core
+//@   props C03
+//@   check panic {C03}
+//@   requires recv != nil
+
+//@ func (*NonNull).Name
+//@   props C03
+//@   check panic {C03}
+//@   requires recv != nil
+
+//@ func (*NonNull).Description
+//@   props C03
+//@   check panic {C03}
+//@   requires recv != nil
+
+//@ func (*NonNull).Directives
+//@   props C03
+//@   check panic {C03}
+//@   requires recv != nil
+
+//@ func (*NonNull).Line
+//@   props C03
+//@   check panic {C03}
+//@   requires recv != nil
+
+//@ func (*NonNull).Column
+//@   props C03
+//@   check panic {C03}
+//@   requires recv != nil
+
+//@ func (*NonNull).String
+//@   props C03
+//@   check panic {C03}
+//@   requires recv != nil
+
+//@ func (*NonNull).SDL
+//@   props C03
+//@   check panic {C03}
+//@   requires recv != nil
+
+//@ func (*NonNull).Write
+//@   props C03
+//@   check panic {C03}
+//@   requires recv != nil
+
+//@ func (*NonNull).Extend
+//@   props C03
+//@   check panic {C03}
+//@   requires recv != nil
+
+//@ func (*NonNull).Validate
+//@   props C03
+//@   check panic {C03}
+//@   requires recv != nil
+
+//@ func (*Object).Rank
+//@   props C03
+//@   check panic {C03}
+//@   requires recv != nil
+
+//@ func (*Object).Fields
+//@   props C03
+//@   check panic {C03}
+//@   requires recv != nil
+
+//@ func (*Object).String
+//@   props C03
+//@   check panic {C03}
+//@   requires recv != nil
+
+//@ func (*Object).SDL
+//@   props C03
+//@   check panic {C03}
+//@   requires recv != nil
+
+//@ func (*Object).Write
+//@   props C03
+//@   check panic {C03}
+//@   requires recv != nil
+
+//@ func (*Object).GetField
+//@   props C03
+//@   check panic {C03}
+//@   requires recv != nil
+
+//@ func (*Op).String
+//@   props C03
+//@   check panic {C03}
+//@   requires recv != nil
+
+//@ func (*Op).write
+//@   props C03
+//@   check panic {C03}
+//@   requires recv != nil
+
+//@ func (*Ref).String
+//@   props C03
+//@   check panic {C03}
+//@   requires recv != nil
+
+//@ func (*Ref).SDL
+//@   props C03
+//@   check panic {C03}
+//@   requires recv != nil
+
+//@ func (*Ref).Write
+//@   props C03
+//@   check panic {C03}
+//@   requires recv != nil
+
+//@ func (*Ref).Rank
+//@   props C03
+//@   check panic {C03}
+//@   requires recv != nil
+
+//@ func NewRoot
+//@   props C03
+//@   check panic {C03}
+
+//@ func (*Root).Types
+//@   props C03
+//@   check panic {C03}
+//@   requires recv != nil
+
+//@ func (*Root).ParseExecutableString
+//@   props C03
+//@   check panic {C03}
+//@   requires[finite-input] #rd <= #N
+//@   requires recv != nil
+
+//@ func (*Root).ParseExecutable
+//@   props C03
+//@   check panic {C03}
+//@   requires[finite-input] #rd <= #N
+//@   requires recv != nil
+
+//@ func (*Root).replaceInterfaceRefs
+//@   props C03
+//@   check panic {C03}
+//@   requires recv != nil
+
+//@ func (*Root).newUuType
+//@   props C03
+//@   check panic {C03}
+//@   requires recv != nil
+
+//@ func (*Root).newUuSchema
+//@   props C03
+//@   check panic {C03}
+//@   requires recv != nil
+
+//@ func (*Root).newUuInputValue
+//@   props C03
+//@   check panic {C03}
+//@   requires recv != nil
+
+//@ func (*Root).newUuField
+//@   props C03
+//@   check panic {C03}
+//@   requires recv != nil
+
+//@ func (*Root).newUuEnumValue
+//@   props C03
+//@   check panic {C03}
+//@   requires recv != nil
+
+//@ func (*Root).newUuDirective
+//@   props C03
+//@   check panic {C03}
+//@   requires recv != nil
+
+//@ func (*Root).newSkipDirective
+//@   props C03
+//@   check panic {C03}
+//@   requires recv != nil
+
+//@ func (*Root).newIncludeDirective
+//@   props C03
+//@   check panic {C03}
+//@   requires recv != nil
+
+//@ func (*Root).newDeprecatedDirective
+//@   props C03
+//@   check panic {C03}
+//@   requires recv != nil
+
+//@ func (*Root).newGoDirective
+//@   props C03
+//@   check panic {C03}
+//@   requires recv != nil
+
+//@ func (*Root).newTypeKind
+//@   props C03
+//@   check panic {C03}
+//@   requires recv != nil
+
+//@ func (*Root).newDirectiveLocation
+//@   props C03
+//@   check panic {C03}
+//@   requires recv != nil
+
+//@ func (*Root).assureSchema
+//@   props C03
+//@   check panic {C03}
+//@   requires recv != nil
+
+//@ func (*Scalar).Rank
+//@   props C03
+//@   check panic {C03}
+//@   requires recv != nil
+
+//@ func (*Scalar).String
+//@   props C03
+//@   check panic {C03}
+//@   requires recv != nil
+
+//@ func (*Scalar).SDL
+//@   props C03
+//@   check panic {C03}
+//@   requires recv != nil
+
+//@ func (*Schema).Rank
+//@   props C03
+//@   check panic {C03}
+//@   requires recv != nil
+
+//@ func (*Schema).String
+//@   props C03
+//@   check panic {C03}
+//@   requires recv != nil
+
+//@ func (*Schema).SDL
+//@   props C03
+//@   check panic {C03}
+//@   requires recv != nil
+
+//@ func (*Schema).Write
+//@   props C03
+//@   check panic {C03}
+//@   requires recv != nil
+
+//@ func (*SelBase).Directives
+//@   props C03
+//@   check panic {C03}
+//@   requires recv != nil
+
+//@ func (*SelBase).SelectionSet
+//@   props C03
+//@   check panic {C03}
+//@   requires recv != nil
+
+//@ func (*SelBase).Validate
+//@   props C03
+//@   check panic {C03}
+//@   requires recv != nil
+
+//@ func (*SelBase).Line
+//@   props C03
+//@   check panic {C03}
+//@   requires recv != nil
+
+//@ func (*SelBase).Column
+//@   props C03
+//@   check panic {C03}
+//@   requires recv != nil
+
+//@ func (*SelBase).SetContextRecursive
+//@   props C03
+//@   check panic {C03}
+//@   requires recv != nil
+
+//@ func (*SelBase).writeSels
+//@   props C03
+//@   check panic {C03}
+//@   requires recv != nil
+
+//@ func newStringScalar
+//@   props C03
+//@   check panic {C03}
+
+//@ func NewSubscription
+//@   props C03
+//@   check panic {C03}
+
+//@ func newTimeScalar
+//@   props C03
+//@   check panic {C03}
+
+//@ func newTypeList
+//@   props C03
+//@   check panic {C03}
+
+//@ func (*typeList).get
+//@   props C03
+//@   check panic {C03}
+//@   requires recv != nil
+
+//@ func (*Union).Rank
+//@   props C03
+//@   check panic {C03}
+//@   requires recv != nil
+
+//@ func (*Union).String
+//@   props C03
+//@   check panic {C03}
+//@   requires recv != nil
+
+//@ func (*Union).SDL
+//@   props C03
+//@   check panic {C03}
+//@   requires recv != nil
+
+//@ func FormErrorsResult
+//@   props C03
+//@   check panic {C03}
+
+//@ func (*uuSchema).Rank
+//@   props C03
+//@   check panic {C03}
+//@   requires recv != nil
+
+//@ func valueString
+//@   props C03
+//@   check panic {C03}
+
+//@ func WriteSDLValue
+//@   props C03
+//@   check panic {C03}
+
+//@ func WriteJSONValue
+//@   props C03
+//@   check panic {C03}
+
+//@ func isCollection
+//@   props C03
+//@   check panic {C03}
+
+//@ func elementSep
+//@   props C03
+//@   check panic {C03}
+
+//@ func (*VarDef).write
+//@   props C03
+//@   check panic {C03}
+//@   requires recv != nil
+
+//@ func writeVarDefs
+//@   props C03
+//@   check panic {C03}
+
